@@ -268,7 +268,9 @@ impl ResourceDescription {
             LimitValue::Soft => soft,
             LimitValue::Hard => hard,
             LimitValue::Unlimited => rlimit::INFINITY,
-            LimitValue::Value(v) => v * self.unit.scale(),
+            LimitValue::Value(v) => v.checked_mul(self.unit.scale()).ok_or_else(|| {
+                std::io::Error::new(std::io::ErrorKind::InvalidInput, "limit out of range")
+            })?,
             LimitValue::Unset => return Ok(()),
         };
 
